@@ -180,6 +180,7 @@ int main(void)
       int inNull = atoi(t[1]), outNull = atoi(t[2]); size_t ilen = strtoul(t[3], 0, 10), olen = strtoul(t[4], 0, 10), idone = 0, odone = 0;
       int both = (S->io_spec.itype & S->io_spec.otype & SOXR_SPLIT) != 0;
       fn_failed = 0;
+      if (S->flushing) inNull = 1;   /* no input after end-of-input (caller contract): only further flush requests */
       /* guard: with no resamplers built the call dereferences NULL (unless it returns before touching them) */
       if (!(inNull && outNull) && ((!S->resamplers && (both || !S->error)) || (both && outNull) ||
           (!both && !S->error && outNull && !olen && (S->io_spec.otype & SOXR_SPLIT))))
@@ -188,7 +189,6 @@ int main(void)
         void * * ia, * * oa; void * in = inNull? 0 : mkbuf(itype, ilen, &ia), * out = outNull? 0 : mkbuf(otype, olen, &oa);
         soxr_error_t e;
         ch = S->num_channels;
-        if (S->flushing) ilen = 0;     /* no input after end-of-input (caller contract) */
         e = soxr_process(S, in, ilen, &idone, out, olen, &odone);
         printf("> process %d %d %zu %s\n< P z=%d err=%s\n", inNull, outNull, olen, fn_failed? "failed" : "quiet", odone == 0, e? e : "-");
         if (odone > olen || idone > ilen) printf("< BOUNDS idone=%zu ilen=%zu odone=%zu olen=%zu\n", idone, ilen, odone, olen);
